@@ -291,6 +291,31 @@ func init() {
 		}
 		return fr.i.mkval(fr.i.matchTerm(pat, s), types.Bool)
 	}
+	intrinsics["(*regexp.Regexp).ReplaceAllString"] = func(fr *frame, args []value) value {
+		pat := regexpPattern(args[0])
+		src, ok1 := args[1].(string)
+		repl, ok2 := args[2].(string)
+		if !ok1 || !ok2 {
+			unsup("regexp ReplaceAllString on a symbolic string")
+		}
+		return regexp.MustCompile(pat).ReplaceAllString(src, repl)
+	}
+	intrinsics["(*regexp.Regexp).FindStringSubmatch"] = func(fr *frame, args []value) value {
+		pat := regexpPattern(args[0])
+		src, ok := args[1].(string)
+		if !ok {
+			unsup("regexp FindStringSubmatch on a symbolic string")
+		}
+		m := regexp.MustCompile(pat).FindStringSubmatch(src)
+		if m == nil {
+			return []value(nil)
+		}
+		out := make([]value, len(m))
+		for k := range m {
+			out[k] = m[k]
+		}
+		return out
+	}
 	intrinsics["(*regexp.Regexp).String"] = func(fr *frame, args []value) value {
 		return regexpPattern(args[0])
 	}
